@@ -28,7 +28,7 @@ def run_common(ctx, prop_file, theorem_names):
     cone = vlib.cone_files("Sierra")
     pr = vlib.check_properties_file(ctx, os.path.join(vlib.COQ, "Props", prop_file), cone) if ok_make else None
     res = {"ok_build": ok_build, "ok_make": ok_make, "pr": pr, "summary": {}, "model_rejects": [],
-           "static_failures": [], "panics": [], "dump_errors": []}
+           "static_failures": [], "panics": [], "dump_errors": [], "negatives_accepted": []}
     cases = os.path.join(ctx.out, "cases")
     if ok_build:
         cdir = os.path.join(ctx.out, "corpus")
@@ -63,6 +63,8 @@ def run_common(ctx, prop_file, theorem_names):
             res["static_failures"] = json.load(open(os.path.join(cases, "static_failures.json")))
             res["panics"] = json.load(open(os.path.join(cases, "panics.json")))
             res["dump_errors"] = [l for l in open(os.path.join(cases, "dump_errors.txt")).read().splitlines() if l]
+            na = os.path.join(cases, "negatives_accepted.json")
+            res["negatives_accepted"] = json.load(open(na)) if os.path.exists(na) else []
             if ok_make:
                 for shard, ok, o in vlib.run_case_shards(ctx, cases, "acc_*.v"):
                     if not ok:
@@ -121,6 +123,8 @@ def run_common(ctx, prop_file, theorem_names):
         "input_distribution": s,
         "traces_validated_against_impl": s.get("accepted_dumped", 0),
         "model_rejects_of_accepted_programs": len(res["model_rejects"]),
+        "negative_templates": s.get("negative_templates", None),
+        "negative_templates_accepted": len(res.get("negatives_accepted", [])),
         "fresh_compiled_programs": (res.get("fresh") or {}).get("compiled", 0),
         "fresh_sources": (res.get("fresh") or {}).get("sources", {}),
         "fresh_not_compiled": len((res.get("fresh") or {}).get("not_compiled", [])),
